@@ -492,6 +492,105 @@ fn main() {
                 });
                 format!("{{\"close_result\":\"{}\"}}", out)
             }
+            // peer_inject <begin|end|flow|attach> <n>: a real client connection (public API over an in-memory duplex)
+            //   against a scripted peer that, once the connection is open, sends one frame the client has no
+            //   session for: begin with remote-channel n, or end/flow/attach on channel n. Reports how the
+            //   client reacted as seen by the peer (close with error / close / stream died / silence).
+            "peer_inject" => {
+                use bytes::{BufMut, BytesMut};
+                use fe2o3_amqp::frames::amqp::{Frame, FrameBody, FrameDecoder};
+                use fe2o3_amqp_types::definitions::{Handle as H2, Role};
+                use fe2o3_amqp_types::performatives::{Attach, Begin, ChannelMax, End, Flow, MaxFrameSize, Open};
+                use tokio::io::{AsyncReadExt, AsyncWriteExt};
+                use tokio_util::codec::{Decoder, Encoder};
+                let kind = toks[1].to_string();
+                let n = nums[1] as u16;
+                let rt = tokio::runtime::Builder::new_current_thread().enable_time().build().unwrap();
+                let out = rt.block_on(async move {
+                    fn wire(frame: Frame) -> Vec<u8> {
+                        let mut enc = frame_encoder(512);
+                        let mut body = BytesMut::new();
+                        enc.encode(frame, &mut body).unwrap();
+                        let mut v = Vec::new();
+                        v.put_u32(body.len() as u32 + 4);
+                        v.extend_from_slice(&body);
+                        v
+                    }
+                    let (client_io, mut peer_io) = tokio::io::duplex(4096);
+                    let peer = tokio::spawn(async move {
+                        let mut hdr = [0u8; 8];
+                        peer_io.read_exact(&mut hdr).await.unwrap();
+                        peer_io.write_all(b"AMQP\x00\x01\x00\x00").await.unwrap();
+                        let open = Open {
+                            container_id: "peer".to_string(),
+                            hostname: None,
+                            max_frame_size: MaxFrameSize(512),
+                            channel_max: ChannelMax(10),
+                            idle_time_out: None,
+                            outgoing_locales: None,
+                            incoming_locales: None,
+                            offered_capabilities: None,
+                            desired_capabilities: None,
+                            properties: None,
+                        };
+                        peer_io.write_all(&wire(Frame::new(0u16, FrameBody::Open(open)))).await.unwrap();
+                        // wait for the client's open
+                        let mut len = [0u8; 4];
+                        if peer_io.read_exact(&mut len).await.is_err() {
+                            return "died";
+                        }
+                        let mut body = vec![0u8; u32::from_be_bytes(len) as usize - 4];
+                        let _ = peer_io.read_exact(&mut body).await;
+                        let frame = match kind.as_str() {
+                            "begin" => Frame::new(0u16, FrameBody::Begin(Begin { remote_channel: Some(n), next_outgoing_id: 0, incoming_window: 10, outgoing_window: 10, handle_max: Default::default(), offered_capabilities: None, desired_capabilities: None, properties: None })),
+                            "end" => Frame::new(n, FrameBody::End(End { error: None })),
+                            "flow" => Frame::new(n, FrameBody::Flow(Flow { next_incoming_id: Some(0), incoming_window: 10, next_outgoing_id: 0, outgoing_window: 10, handle: None, delivery_count: None, link_credit: None, available: None, drain: false, echo: false, properties: None })),
+                            _ => Frame::new(n, FrameBody::Attach(Attach { name: "x".to_string(), handle: H2(0), role: Role::Sender, snd_settle_mode: Default::default(), rcv_settle_mode: Default::default(), source: None, target: None, unsettled: None, incomplete_unsettled: false, initial_delivery_count: Some(0), max_message_size: None, offered_capabilities: None, desired_capabilities: None, properties: None })),
+                        };
+                        peer_io.write_all(&wire(frame)).await.unwrap();
+                        // how does the client react?
+                        let react = tokio::time::timeout(std::time::Duration::from_millis(1500), async {
+                            loop {
+                                let mut len = [0u8; 4];
+                                if peer_io.read_exact(&mut len).await.is_err() {
+                                    return "died";
+                                }
+                                let nb = u32::from_be_bytes(len) as usize - 4;
+                                let mut body = vec![0u8; nb];
+                                if peer_io.read_exact(&mut body).await.is_err() {
+                                    return "died";
+                                }
+                                let mut src = BytesMut::from(&body[..]);
+                                if let Ok(Some(f)) = (FrameDecoder {}).decode(&mut src) {
+                                    if let FrameBody::Close(c) = f.body {
+                                        return if c.error.is_some() { "close_err" } else { "close" };
+                                    }
+                                }
+                            }
+                        })
+                        .await;
+                        react.unwrap_or("silence")
+                    });
+                    let client = tokio::time::timeout(std::time::Duration::from_secs(4), async {
+                        let mut conn = match fe2o3_amqp::Connection::builder().container_id("client").open_with_stream(client_io).await {
+                            Ok(c) => c,
+                            Err(_) => return "open_failed",
+                        };
+                        match tokio::time::timeout(std::time::Duration::from_millis(2500), conn.on_close()).await {
+                            Err(_) => "still_open",
+                            Ok(Ok(())) => "closed_ok",
+                            Ok(Err(fe2o3_amqp::connection::Error::NotFound(_))) => "not_found",
+                            Ok(Err(fe2o3_amqp::connection::Error::IllegalState)) => "illegal_state",
+                            Ok(Err(_)) => "other_error",
+                        }
+                    })
+                    .await
+                    .unwrap_or("hang");
+                    let p = peer.await.unwrap_or("peer_panicked");
+                    format!("{{\"peer\":\"{}\",\"client\":\"{}\"}}", p, client)
+                });
+                out
+            }
             // reader <dst_len> <l1> <l2> <l3>: one read of the chained-buffer reader over three chunks
             "reader" => {
                 use std::io::Read;
@@ -675,6 +774,42 @@ fn main() {
                     fe2o3_amqp::frames::amqp::FrameDecoder {}.decode(&mut src).is_ok()
                 };
                 format!("{{\"ok\":{}}}", ok)
+            }
+            // msgid <code> / annkey <code>: a minimal value whose constructor is <code>, decoded as MessageId /
+            //   as an annotation key; reports the index of the variant it became (-1: rejected)
+            "msgid" | "annkey" => {
+                let code = nums[0] as u8;
+                let mut bytes = vec![code];
+                match code {
+                    0x53 | 0x50 | 0x51 | 0x52 | 0x54 | 0x55 | 0x56 => bytes.push(7),
+                    0x60 | 0x61 => bytes.extend_from_slice(&[0, 7]),
+                    0x70 | 0x71 | 0x72 | 0x73 | 0x74 => bytes.extend_from_slice(&[0, 0, 0, 7]),
+                    0x80 | 0x81 | 0x82 | 0x83 | 0x84 => bytes.extend_from_slice(&[0, 0, 0, 0, 0, 0, 0, 7]),
+                    0x94 | 0x98 => bytes.extend_from_slice(&[7u8; 16]),
+                    0xa0 | 0xa1 | 0xa3 => bytes.extend_from_slice(&[1, b'x']),
+                    0xb0 | 0xb1 | 0xb3 => bytes.extend_from_slice(&[0, 0, 0, 1, b'x']),
+                    0xc0 | 0xc1 | 0xe0 => bytes.extend_from_slice(&[1, 0]),
+                    0xd0 | 0xd1 | 0xf0 => bytes.extend_from_slice(&[0, 0, 0, 4, 0, 0, 0, 0]),
+                    _ => {}
+                }
+                let variant: i64 = if toks[0] == "msgid" {
+                    use fe2o3_amqp_types::messaging::MessageId;
+                    match serde_amqp::from_slice::<MessageId>(&bytes) {
+                        Ok(MessageId::Ulong(_)) => 0,
+                        Ok(MessageId::Uuid(_)) => 1,
+                        Ok(MessageId::Binary(_)) => 2,
+                        Ok(MessageId::String(_)) => 3,
+                        Err(_) => -1,
+                    }
+                } else {
+                    use fe2o3_amqp_types::messaging::annotations::OwnedKey;
+                    match serde_amqp::from_slice::<OwnedKey>(&bytes) {
+                        Ok(OwnedKey::Symbol(_)) => 0,
+                        Ok(OwnedKey::Ulong(_)) => 1,
+                        Err(_) => -1,
+                    }
+                };
+                format!("{{\"variant\":{}}}", variant)
             }
             // iochunk <k>: values that go through the io reader's peek buffer, decoded from a reader that
             //   delivers at most <k> bytes per read() call, compared with the slice reader
